@@ -130,6 +130,32 @@ def _reuse(ctx):
     ctx.ob("R6.3", "custom_fdtd_forward[reset_container=False]:continues", isinstance(h, tuple) and len(h) == 6 and h[5] == ("init", "used"), "without reset the steps are applied on top of the given state", str(h)[:160], "run over ('init','used')")
 
 
+def _split_many(ctx, parts):
+    """a_0 -> a_1 -> ... -> a_n in n partial runs equals a_0 -> a_n in one."""
+    T = integer_atom("T")
+    pts = [integer_atom(f"a{i}") for i in range(parts + 1)]
+    fn = "fdtdx.fdtd.fdtd.custom_fdtd_forward"
+    for as_arrays in (False, True):
+        facts = lambda: Facts([pts[0]] + [y - x for x, y in zip(pts, pts[1:])] + [T - pts[-1]])
+        d = Driver(ctx, facts(), python_int_times=not as_arrays)
+        arr, cfg = d.arrays(), d.config(T)
+        t, cur = pts[0], arr
+        for nxt in pts[1:]:
+            r = d.call(fn, cur, _objects(), cfg, atom("key"), False, True, t, nxt, show_progress=False)
+            if isinstance(r, Raised):
+                raise AnalysisError(f"custom_fdtd_forward raises: {r}")
+            t, cur = r
+        d2 = Driver(ctx, facts(), python_int_times=not as_arrays)
+        r1 = d2.call(fn, d2.arrays(), _objects(), d2.config(T), atom("key"), False, True, pts[0], pts[-1], show_progress=False)
+        same = to_rat(t).equals(to_rat(r1[0])) and dyn_signature(cur) == dyn_signature(r1[1]) and all(lp.covered and lp.enters for lp in d.loops)
+        ctx.ob("R6.1", f"custom_fdtd_forward:split-in-{parts}[{'array-valued' if as_arrays else 'Python-int'} bounds]", same, f"{parts} consecutive partial runs equal the single run over the same steps", str(dyn_signature(cur))[:160], str(dyn_signature(r1[1]))[:160])
+
+
+def run_thorough(ctx):
+    for parts in (3, 4, 6):
+        _split_many(ctx, parts)
+
+
 def run(ctx):
     _split(ctx)
     _reset(ctx)
